@@ -77,6 +77,9 @@ type (
 		ReceivedPackets  uint
 	}
 	pcapOverIPEndpoint struct {
+		// mu guards the counters of PcapOverIPEndpointInfo, which the
+		// connection goroutine updates while the service loop reads them.
+		mu sync.Mutex
 		PcapOverIPEndpointInfo
 		cancel func()
 	}
@@ -2269,7 +2272,9 @@ func (mgr *Manager) newPcapOverIPEndpoint(ctx context.Context, address string) *
 				sl := handle.SnapLen()
 				log.Printf("Connection to PCAP-over-IP endpoint %q established (using linkType %s and snaplen %d)\n", endpoint.Address, lt.String(), sl)
 
+				endpoint.mu.Lock()
 				endpoint.LastConnected = time.Now().UnixNano()
+				endpoint.mu.Unlock()
 				for {
 					data, ci, err := handle.ReadPacketData()
 					if err != nil {
@@ -2277,12 +2282,16 @@ func (mgr *Manager) newPcapOverIPEndpoint(ctx context.Context, address string) *
 						return
 					}
 					mgr.pcapOverIPPackets <- pcapOverIPPacket{lt, data, ci}
+					endpoint.mu.Lock()
 					endpoint.ReceivedPackets++
+					endpoint.mu.Unlock()
 				}
 			}()
+			endpoint.mu.Lock()
 			if endpoint.LastDisconnected <= endpoint.LastConnected {
 				endpoint.LastDisconnected = time.Now().UnixNano()
 			}
+			endpoint.mu.Unlock()
 			select {
 			case <-ctx.Done():
 				return
@@ -2293,12 +2302,18 @@ func (mgr *Manager) newPcapOverIPEndpoint(ctx context.Context, address string) *
 	return endpoint
 }
 
+func (e *pcapOverIPEndpoint) info() PcapOverIPEndpointInfo {
+	e.mu.Lock()
+	defer e.mu.Unlock()
+	return e.PcapOverIPEndpointInfo
+}
+
 func (mgr *Manager) ListPcapOverIPEndpoints() []PcapOverIPEndpointInfo {
 	c := make(chan []PcapOverIPEndpointInfo)
 	mgr.jobs <- func() {
 		endpoints := make([]PcapOverIPEndpointInfo, 0, len(mgr.pcapOverIPEndpoints))
 		for _, e := range mgr.pcapOverIPEndpoints {
-			endpoints = append(endpoints, e.PcapOverIPEndpointInfo)
+			endpoints = append(endpoints, e.info())
 		}
 		c <- endpoints
 		close(c)
@@ -2321,7 +2336,7 @@ func (mgr *Manager) AddPcapOverIPEndpoint(address string) error {
 			mgr.pcapOverIPEndpoints = append(mgr.pcapOverIPEndpoints, mgr.newPcapOverIPEndpoint(context.Background(), address))
 			endpoints := make([]PcapOverIPEndpointInfo, 0, len(mgr.pcapOverIPEndpoints))
 			for _, e := range mgr.pcapOverIPEndpoints {
-				endpoints = append(endpoints, e.PcapOverIPEndpointInfo)
+				endpoints = append(endpoints, e.info())
 			}
 			mgr.event(Event{
 				Type:                "pcapOverIPEndpointsUpdated",
@@ -2349,7 +2364,7 @@ func (mgr *Manager) DelPcapOverIPEndpoint(address string) error {
 			mgr.pcapOverIPEndpoints = slices.Delete(mgr.pcapOverIPEndpoints, toDelete, toDelete+1)
 			endpoints := make([]PcapOverIPEndpointInfo, 0, len(mgr.pcapOverIPEndpoints))
 			for _, e := range mgr.pcapOverIPEndpoints {
-				endpoints = append(endpoints, e.PcapOverIPEndpointInfo)
+				endpoints = append(endpoints, e.info())
 			}
 			mgr.event(Event{
 				Type:                "pcapOverIPEndpointsUpdated",
